@@ -1100,9 +1100,9 @@ def corpus_to_case(j: dict) -> dict:
 def run(ctx: Ctx) -> None:
     rng = ctx.rng
     quick = ctx.tier == 'quick'
-    n_good = 6000 if quick else 60000
-    n_len = 100 if quick else 1500
-    n_dec = 15000 if quick else 150000
+    n_good = 3500 if quick else 60000
+    n_len = 80 if quick else 1500
+    n_dec = 8000 if quick else 150000
     ctx.rule = (
         'encode: text rules generated from abstract component lists (13 component types, IPv4/IPv6 with offsets, operator lists with AND chains, '
         'named and numeric values, repeated keywords, route distinguishers, then-clauses) plus enumerated field boundaries; a case is non-trivial when the '
